@@ -60,7 +60,14 @@ type Oblig struct {
 	Extra    []string // additional commands (lemma obligations)
 	Inputs   []ModelVar
 	Negate   bool // cover obligations: want SAT
+	Outputs  []OutVar
 	SiteDesc string
+}
+
+// OutVar is a scalar result of the function at one return (for replay).
+type OutVar struct {
+	Term string
+	GoT  types.Type
 }
 
 // ModelVar names an SMT term whose model value is interesting for replay.
@@ -152,6 +159,8 @@ type Enc struct {
 	qn             int
 	rootFoot       *callEffect
 	typedArr       map[string]bool
+	rootEntry      *Heap
+	paramOps       []Operand
 }
 
 func newEnc(w *World, fn *ssa.Function, c *Contract) *Enc {
